@@ -33,7 +33,11 @@ class WhileMixin:
         where = module.loc(st)
         why = self._worklist_form(st, env)
         if isinstance(why, str):
-            raise AnalysisError(f"`while` loop outside the supported worklist form ({why})", where)
+            if self._descent_loop(st, env, module):
+                return
+            if self._scalar_loop(st, env, module):
+                return
+            raise AnalysisError(f"`while` loop outside the supported forms ({why})", where)
         wname, targets, rest = why
         W: PyList = env[wname]
         others = self._result_lists(rest, env, wname)
@@ -63,6 +67,105 @@ class WhileMixin:
                 exc, ewhere = raises[c - 1]
                 self.cond(f"worklist item raises {_describe(exc)[:60]}", True)
                 raise _Raise(exc, ewhere)
+
+    # ------------------------------------------------------------------------------------------------------------
+    def _descent_loop(self, st: ast.While, env, module) -> bool:
+        """while <test on x>: ...; x = x.<attr>      (walk down one spine of a tree)
+        is the worklist loop   W = [x]; while W: x = W.pop(); if <test>: ...; W.append(x.<attr>) else: F.append(x)
+        followed by x = <the element of F>; it is rewritten to that form and summarised by the same machinery."""
+        if st.orelse or not st.body:
+            return False
+        last = st.body[-1]
+        if not (isinstance(last, ast.Assign) and len(last.targets) == 1 and isinstance(last.targets[0], ast.Name)):
+            return False
+        var = last.targets[0].id
+        rhs = last.value
+        base = rhs
+        depth = 0
+        while isinstance(base, ast.Attribute):
+            base = base.value
+            depth += 1
+        if not (isinstance(base, ast.Name) and base.id == var and depth >= 1) or var not in env:
+            return False
+        tested = {n.id for n in ast.walk(st.test) if isinstance(n, ast.Name) and n.id in env}
+        if var not in tested:
+            return False
+        for b in st.body[:-1]:
+            for n in ast.walk(b):
+                if isinstance(n, ast.Name) and isinstance(n.ctx, (ast.Store, ast.Del)) and n.id == var:
+                    return False
+                if isinstance(n, (ast.While, ast.Break, ast.Continue, ast.Return)):
+                    return False
+        wn, fn_ = f"__descent_{st.lineno}", f"__descent_exit_{st.lineno}"
+        src = (f"{wn} = [{var}]\n{fn_} = []\nwhile {wn}:\n    {var} = {wn}.pop()\n    if __TEST__:\n        pass\n    else:\n        {fn_}.append({var})\n")
+        tree = ast.parse(src)
+        loop = tree.body[2]
+        branch = loop.body[1]
+        branch.test = st.test
+        push = ast.Expr(value=ast.Call(func=ast.Attribute(value=ast.Name(id=wn, ctx=ast.Load()), attr="append", ctx=ast.Load()), args=[rhs], keywords=[]))
+        branch.body = list(st.body[:-1]) + [push]
+        for n in ast.walk(tree):
+            if not hasattr(n, "lineno") or getattr(n, "lineno", None) is None:
+                pass
+        for top in tree.body:
+            ast.copy_location(top, st)
+        for n in ast.walk(tree):
+            if isinstance(n, (ast.stmt, ast.expr)) and not hasattr(n, "end_lineno"):
+                ast.copy_location(n, st)
+        ast.fix_missing_locations(tree)
+        loop.lineno = st.lineno
+        saved = env[var]
+        self.exec_block(tree.body, env, module)
+        fl = env.pop(fn_, None)
+        env.pop(wn, None)
+        vals: List[V] = []
+        if isinstance(fl, PyList):
+            vals = list(fl.items) + [x for _, per in fl.loop_parts for x in per]
+        if not vals:
+            raise PathAbort()  # the loop never leaves through its condition on this path
+        from .values import AltV
+        env[var] = vals[0] if len(vals) == 1 else AltV(vals)
+        return True
+
+    # ------------------------------------------------------------------------------------------------------------
+    def _scalar_loop(self, st: ast.While, env, module) -> bool:
+        """while <test>: <local scalar> = <pure expression> ...  (e.g. repeat a string replacement until nothing changes).
+        Nothing but local names is rebound and nothing is appended or mutated, so the loop can only change those names: after
+        it they hold *some iterate* of the body - an opaque value that remembers what one iteration does. Whether the loop
+        terminates is not decided here (event `while`, structural=False)."""
+        if st.orelse:
+            return False
+        names: List[str] = []
+        for b in st.body:
+            if isinstance(b, ast.Pass):
+                continue
+            if isinstance(b, ast.Assign) and len(b.targets) == 1 and isinstance(b.targets[0], ast.Name):
+                names.append(b.targets[0].id)
+            elif isinstance(b, ast.AugAssign) and isinstance(b.target, ast.Name):
+                names.append(b.target.id)
+            else:
+                return False
+        if not names or any(n not in env for n in names):
+            return False
+        for n in ast.walk(ast.Module(body=list(st.body), type_ignores=[])):
+            if isinstance(n, (ast.Yield, ast.YieldFrom, ast.Await, ast.Lambda, ast.NamedExpr)):
+                return False
+        where = module.loc(st)
+        if not self.truthy(self.eval(st.test, env, module), st.test):
+            self.event("while", where=where, structural=False, form="scalar", node_line=st.lineno)
+            return True
+        before = {n: env[n] for n in names}
+        n_events = len(self.events)
+        self.exec_block(st.body, env, module)
+        for ev in self.events[n_events:]:
+            if ev.kind in SIDE_EFFECT_EVENTS or ev.kind in ("list_mutation",):
+                raise AnalysisError(f"`while` loop body has a side effect ({ev.kind})", ev.where)
+        for n in names:
+            one = env[n]
+            strlike = isinstance(one, Sym) and one.hint == "str" or type(one).__name__ == "Str" or (isinstance(one, Const) and isinstance(one.v, str))
+            env[n] = Sym("iterated", n, where, _describe(before[n])[:80], _describe(one)[:120], hint="str" if strlike else None)
+        self.event("while", where=where, structural=False, form="scalar", node_line=st.lineno)
+        return True
 
     # ------------------------------------------------------------------------------------------------------------
     def _worklist_form(self, st: ast.While, env):
